@@ -56,6 +56,8 @@ def grid(tier):
         for spell in ("Yes", "yes", "YES", "No", "NO", "Y"):
             k += 1
             yield {"n": n, "r": 3, "opts": {}, "engine": ["numpy", "normal"][k % 2], "values": "plain", "seed": 8 * k, "wrap_item": spell}
+    for k, nullv in enumerate(("", "", " ", "N/A")):      # a NULL line without a value (or with text): NaN samples must still come back as NaN
+        yield {"n": 3, "r": 4, "opts": [{}, {"wrap": True}, {"version": 1.2}, {}][k], "engine": ["numpy", "normal"][k % 2], "values": "plain", "seed": 9100 + k, "null": nullv, "nan": 0.5}
     for nullv in (-999.25, -9999.25, 0):      # witness of the known finding: a reading equal to the NULL value
         k += 1
         yield {"n": 3, "r": 3, "opts": {}, "engine": ["numpy", "normal"][k % 2], "values": "plain", "seed": 8 * k, "null": nullv, "null_equal_sample": True}
@@ -111,6 +113,14 @@ def random_case(rng, tier):
             "tight_width": rng.choice([None, None, None, 0, 1, 2, 3]), "wrap_item": rng.choice([None] * 8 + ["Yes", "yes", "YES", "No"]), "wrap_form": rng.choice([None] * 6 + ["numpy", "int"]), "narrow_width": rng.choice([None] * 9 + [1, 2, 5, 20])}
 
 
+def fnull(null):
+    """The NULL value as a float; NaN (equal to nothing) for a NULL line whose value is empty or text."""
+    try:
+        return float(null)
+    except (TypeError, ValueError):
+        return float("nan")
+
+
 def make_values(case):
     import random
     rng = random.Random(case["seed"])
@@ -124,7 +134,7 @@ def make_values(case):
         if kind == "ints":
             return float(rng.randint(-5000, 5000))
         if kind == "nearnull":
-            nv = float(null)
+            nv = fnull(null)
             return nv + rng.choice([-1, 1]) * rng.choice([1e-3, 4e-3, 0.05, 0.011, 1.0, abs(nv) * 3e-6 + 2e-3])
         if kind == "halfway":
             return rng.choice([0.000005, 1.000005, 2.5, 0.125, 1234.565, -0.005, 0.0049999, 99.9999949, 1e-7]) * rng.choice([1, -1, 10])
@@ -141,8 +151,8 @@ def make_values(case):
     start = rng.choice([0.0, 100.0, 1670.0, -50.0])
     step = rng.choice([0.5, 0.1524, -0.125, 1.0])
     idx = [start + i * step for i in range(r)]
-    if case.get("null") is not None and rng.random() < 0.3:
-        idx[rng.randrange(r)] = float(null)
+    if case.get("null") is not None and not math.isnan(fnull(null)) and rng.random() < 0.3:
+        idx[rng.randrange(r)] = fnull(null)
     data = [idx]
     p = case.get("nan", 0.1 if kind == "plain" else 0)
     for j in range(1, n):
@@ -168,6 +178,8 @@ def run_case(case, ctx):
     opts = dict(case["opts"])
     null = case.get("null", -999.25)
     data = make_values(case)
+    # a NULL value that is text (not a number, not blank): lasio writes it for NaN but only understands numbers when reading (known finding)
+    text_null = isinstance(null, str) and null.strip() != "" and math.isnan(fnull(null))
     # ---- domain guards (the statement's 'supported combination of options') ------------------------------------
     toks = [[(fmt_for(opts, j) % x) if not math.isnan(x) else str(null) for x in col] for j, col in enumerate(data)]
     for j in range(1, n):
@@ -175,7 +187,7 @@ def run_case(case, ctx):
             x = data[j][i]
             if not math.isnan(x):
                 try:
-                    if float(toks[j][i]) == float(null) and x == float(null) and not case.get("null_equal_sample"):
+                    if float(toks[j][i]) == fnull(null) and x == fnull(null) and not case.get("null_equal_sample"):
                         # a sample *equal* to NULL is what NULL means (known finding; its witness keeps it); samples that merely
                         # round onto NULL are kept: the writer must spell them out
                         data[j][i] = x = x + 1.0 if abs(x) < 1e15 else x * 2
@@ -183,7 +195,7 @@ def run_case(case, ctx):
                 except ValueError:
                     pass
     if case.get("null_equal_sample") and n >= 2:
-        data[1][0] = float(null)
+        data[1][0] = fnull(null)
         ctx.count("cases_with_a_sample_equal_to_null")
     width = max(len(t.strip()) if opts.get("len_numeric_field", None) == -1 else max(len(t), opts.get("len_numeric_field") or 0)
                 for col in toks for t in col)
@@ -277,7 +289,8 @@ def run_case(case, ctx):
             ctx.violation("row-count-changed:" + tag, "curve #%d has %r samples, %d written" % (j, got.shape, r), detail)
             return
         if got.dtype.kind != "f":
-            ctx.violation("numeric-curve-read-as-text:" + tag, "curve #%d came back with dtype %s" % (j, got.dtype), detail)
+            ctx.violation("text-null-marker:column-read-as-text" if text_null and any(math.isnan(x) for x in data[j]) else "numeric-curve-read-as-text:" + tag,
+                          "curve #%d came back with dtype %s" % (j, got.dtype), detail)
             continue
         for i in range(r):
             x, y = data[j][i], float(got[i])
@@ -287,10 +300,10 @@ def run_case(case, ctx):
                 if not math.isnan(y):
                     ctx.violation("nan-not-restored:" + tag, "curve #%d row %d was NaN, read back %r" % (j, i, y), detail)
                 continue
-            if j == 0 and x == float(null):
+            if j == 0 and x == fnull(null):
                 ctx.count("index_null_equal_samples")
             if math.isnan(y):
-                ctx.violation("index-sample-nulled" if j == 0 else "finite-sample-equal-to-null-became-nan" if x == float(null) else "finite-sample-became-nan:" + tag,
+                ctx.violation("index-sample-nulled" if j == 0 else "finite-sample-equal-to-null-became-nan" if x == fnull(null) else "finite-sample-became-nan:" + tag,
                               "curve #%d row %d was %r (token %r), read back NaN" % (j, i, x, toks[j][i]), detail)
                 continue
             tok = fmt_for(opts, j) % x
@@ -315,7 +328,7 @@ def run_case(case, ctx):
             t2 = [t for ln in l2[a2 + 1:] for t in ln.split()]
             if t1 != t2:
                 k = next((i for i, (a, b) in enumerate(zip(t1, t2)) if a != b), min(len(t1), len(t2)))
-                ctx.violation("second-generation-data-tokens-differ:" + tag, "re-writing the object read back gives %d data tokens (first difference at #%d: %r vs %r), the first write gave %d" % (
+                ctx.violation("text-null-marker:second-generation-tokens-differ" if text_null else "second-generation-data-tokens-differ:" + tag, "re-writing the object read back gives %d data tokens (first difference at #%d: %r vs %r), the first write gave %d" % (
                     len(t2), k, t1[k:k + 1], t2[k:k + 1], len(t1)), dict(detail, second_text=b2.getvalue()[:4000]))
     # ---- a second write after in-place edits of the samples must carry the edited samples --------------------------
     if case.get("seed", 0) % 3 == 2 and n >= 2:
@@ -324,7 +337,7 @@ def run_case(case, ctx):
         for j in range(1, n):
             i = (case["seed"] + j) % r
             newv = round(123.456 + j + i / 7.0, 3)
-            if float(fmt_for(opts, j) % newv) == float(null):
+            if float(fmt_for(opts, j) % newv) == fnull(null):
                 newv += 1.0
             las.curves[j].data[i] = newv
             edits.append((j, i, newv))
